@@ -23,10 +23,12 @@ pub struct Cfg {
 }
 
 /// pool indices: 0 v1(r1) 1 v2(r1) 2 v3(r2) 3 inv1(r1, invalid) 4 inv3(r3, invalid, never-seen resource) 5 d1 (= v1, other id)
-const POOL: usize = 6;
+/// 6 w1 (r1): v1 with ONE secondary field changed (flow: statistic interval; breaker: minimum request
+/// amount; hotspot: burst; isolation: threshold; system: adaptive strategy) - a different rule
+const POOL: usize = 7;
 const R: [&str; 3] = ["c10-r1", "c10-r2", "c10-r3"];
 fn res_of(k: usize) -> usize {
-    [0, 0, 1, 0, 2, 0][k]
+    [0, 0, 1, 0, 2, 0, 0][k]
 }
 fn valid(k: usize) -> bool {
     k != 3 && k != 4
@@ -40,8 +42,15 @@ fn class(k: usize) -> usize {
     }
 }
 /// threshold enforced by pool rule k (flow tokens per window / isolation concurrency)
+fn iso_limit(k: usize) -> u32 {
+    if k == 6 {
+        5
+    } else {
+        limit(k)
+    }
+}
 fn limit(k: usize) -> u32 {
-    [2, 4, 3, 0, 0, 2][k]
+    [2, 4, 3, 0, 0, 2, 2][k]
 }
 
 #[derive(Clone, Debug)]
@@ -79,20 +88,20 @@ macro_rules! fam_dispatch {
 }
 
 fn flow_rule(k: usize) -> Arc<flow::Rule> {
-    Arc::new(flow::Rule { id: format!("p{}", k), resource: R[res_of(k)].into(), threshold: if valid(k) { limit(k) as f64 } else { -1.0 }, stat_interval_ms: 1000, ..Default::default() })
+    Arc::new(flow::Rule { id: format!("p{}", k), resource: R[res_of(k)].into(), threshold: if valid(k) { limit(k) as f64 } else { -1.0 }, stat_interval_ms: if k == 6 { 2000 } else { 1000 }, ..Default::default() })
 }
 fn cb_rule(k: usize) -> Arc<cb::Rule> {
-    Arc::new(cb::Rule { id: format!("p{}", k), resource: R[res_of(k)].into(), strategy: cb::BreakerStrategy::ErrorCount, retry_timeout_ms: if valid(k) { 1000 } else { 0 }, min_request_amount: 1, stat_interval_ms: 1000, threshold: 10.0 + limit(k) as f64, ..Default::default() })
+    Arc::new(cb::Rule { id: format!("p{}", k), resource: R[res_of(k)].into(), strategy: cb::BreakerStrategy::ErrorCount, retry_timeout_ms: if valid(k) { 1000 } else { 0 }, min_request_amount: if k == 6 { 2 } else { 1 }, stat_interval_ms: 1000, threshold: 10.0 + limit(k) as f64, ..Default::default() })
 }
 fn hs_rule(k: usize) -> Arc<hotspot::Rule> {
-    Arc::new(hotspot::Rule { id: format!("p{}", k), resource: R[res_of(k)].into(), metric_type: hotspot::MetricType::QPS, threshold: 10 + limit(k) as u64, duration_in_sec: if valid(k) { 1 } else { 0 }, ..Default::default() })
+    Arc::new(hotspot::Rule { id: format!("p{}", k), resource: R[res_of(k)].into(), metric_type: hotspot::MetricType::QPS, threshold: 10 + limit(k) as u64, burst_count: if k == 6 { 3 } else { 0 }, duration_in_sec: if valid(k) { 1 } else { 0 }, ..Default::default() })
 }
 fn iso_rule(k: usize) -> Arc<isolation::Rule> {
-    Arc::new(isolation::Rule { id: format!("p{}", k), resource: R[res_of(k)].into(), threshold: if valid(k) { limit(k) } else { 0 }, ..Default::default() })
+    Arc::new(isolation::Rule { id: format!("p{}", k), resource: R[res_of(k)].into(), threshold: if k == 6 { 5 } else if valid(k) { limit(k) } else { 0 }, ..Default::default() })
 }
 fn sys_rule(k: usize) -> Arc<system::Rule> {
-    let (mt, thr) = [(system::MetricType::InboundQPS, 1000.0), (system::MetricType::Concurrency, 1000.0), (system::MetricType::AvgRT, 1e6), (system::MetricType::Load, 2.0), (system::MetricType::CpuUsage, 200.0), (system::MetricType::InboundQPS, 1000.0)][k];
-    Arc::new(system::Rule { id: format!("p{}", k), metric_type: mt, threshold: thr, ..Default::default() })
+    let (mt, thr) = [(system::MetricType::InboundQPS, 1000.0), (system::MetricType::Concurrency, 1000.0), (system::MetricType::AvgRT, 1e6), (system::MetricType::Load, 2.0), (system::MetricType::CpuUsage, 200.0), (system::MetricType::InboundQPS, 1000.0), (system::MetricType::InboundQPS, 1000.0)][k];
+    Arc::new(system::Rule { id: format!("p{}", k), metric_type: mt, threshold: thr, strategy: if k == 6 { system::AdaptiveStrategy::BBR } else { system::AdaptiveStrategy::NoAdaptive } })
 }
 
 /// pool index of a reported rule, from its id
@@ -168,7 +177,7 @@ impl C10 {
         if self.fam == Fam::Flow || self.fam == Fam::Iso {
             for r in 0..3 {
                 let want: Vec<usize> = self.store.get(&r).cloned().unwrap_or_default();
-                let cap = want.iter().map(|k| limit(*k)).min();
+                let cap = want.iter().map(|k| if self.fam == Fam::Iso { iso_limit(*k) } else { limit(*k) }).min();
                 // a fresh statistic window
                 advance_ms(20_000);
                 let mut held: Vec<EntryStrongPtr> = vec![];
@@ -208,15 +217,15 @@ impl Subject for C10 {
     }
     fn enabled(&self) -> Vec<Op> {
         let mut v = vec![];
-        for s in [vec![0], vec![], vec![0, 1], vec![1, 2], vec![0, 3], vec![3, 4], vec![0, 5], vec![0, 1, 2]] {
+        for s in [vec![0], vec![], vec![0, 1], vec![1, 2], vec![0, 3], vec![3, 4], vec![0, 5], vec![0, 1, 2], vec![6]] {
             v.push(Op::LoadAll(s));
         }
-        for k in [1, 0, 2, 3, 4, 5] {
+        for k in [1, 0, 2, 3, 4, 5, 6] {
             v.push(Op::Append(k));
         }
         v.push(Op::ClearAll);
         if self.fam != Fam::Sys {
-            for s in [vec![], vec![0], vec![1], vec![0, 1], vec![3], vec![0, 5]] {
+            for s in [vec![], vec![0], vec![1], vec![0, 1], vec![3], vec![0, 5], vec![6]] {
                 v.push(Op::LoadRes(0, s));
             }
             v.push(Op::LoadRes(1, vec![2]));
@@ -371,7 +380,7 @@ pub fn run(o: &Opts, stats: &mut Stats) -> Option<usize> {
     let thorough = o.thorough;
     let mut expanded = vec![];
     for c in &cfgs {
-        for first in 0..25usize {
+        for first in 0..28usize {
             expanded.push(Sharded { fam: c.fam, first });
         }
     }
